@@ -10,7 +10,7 @@ META = dict(
            "called at most n times per sort, either execution loop needs at most |jobs|+1 rounds (+11 for the stall detector); exceeding a "
            "budget raises BudgetExceeded, which the harness reports as non-termination"],
     outside=["workflows with more than 3-6 nodes, more than two late assignments", "real wall-clock behaviour (the stall detector's sleeps are logical)"],
-    assumptions=["a budget overrun is a hang: the budgets are 10x the bound derived from the code; loops outside the budgeted functions are caught by a 40 s wall-clock watchdog per submission (a normal run takes < 10 s traced)"],
+    assumptions=["a budget overrun is a hang: the budgets are 10x the bound derived from the code; loops outside the budgeted functions are caught by a 15 s wall-clock watchdog per submission (a normal run takes < 10 s traced)"],
 )
 NS = 4
 
@@ -28,10 +28,11 @@ def build(tier, seed, exclude):
                 return T.fail(err) if err else True
             """, timeout=to)
     # two late assignments (a cycle plus a node hanging below it)
-    g.cond("h_late_two_any", "i: int, j: int, i2: int, j2: int, use_async: bool", ["0 <= i < 3 and 0 <= j < 3 and 0 <= i2 < 3 and 0 <= j2 < 3"], """
-        err = AP.c18(T.real(i), T.real(j), False, T.real(use_async), [0, 0, 0], second=(T.real(i2), T.real(j2)))
-        return T.fail(err) if err else True
-    """, timeout=to)
+    for i0 in range(3):
+        g.cond(f"h_late_two_any_{i0}", "j: int, i2: int, j2: int, use_async: bool", ["0 <= j < 3 and 0 <= i2 < 3 and 0 <= j2 < 3"], f"""
+            err = AP.c18({i0}, T.real(j), False, T.real(use_async), [0, 0, 0], second=(T.real(i2), T.real(j2)))
+            return T.fail(err) if err else True
+        """, timeout=to)
     # failing / stalled workflows still end (async loop): every failing subset, symbolic schedule
     params = ", ".join(f"c{i}: int" for i in range(NS)) + ", bits: int, k: int"
     pre = [" and ".join(f"0 <= c{i} < 4" for i in range(NS)), "0 <= bits < 4 and 0 <= k <= 2"]
